@@ -8,15 +8,26 @@ Open Scope Z_scope.
 Definition dir_code (d : dir) : Z := match d with DIn => 0 | DOut => 1 | DBidir => 2 end.
 Definition kind_code (k : kind) : Z := match k with KSim => 0 | KSingle => 1 | KDiff => 2 end.
 Definition err_code (e : err) : Z := match e with EIndex => 1 | EValue => 2 | EType => 3 | EConflict => 4 end.
+Definition dom_code (d : option dom) : Z := match d with None => 0 | Some DSync => 1 | Some DA => 2 | Some DB => 3 end.
 Definition res_list (r : res (list Z)) : list Z := match r with Ok l => 1 :: l | Err e => [0; err_code e] end.
 Definition nz (n : nat) : Z := Z.of_nat n.
 Definition refs_list (l : list ref) : list Z := flat_map (fun r => [nz (fst r); nz (snd r)]) l.
 
-(* port algebra: kind, direction, len, invert tuple, wires *)
+(* the Value tree of a simulation port member: Signal -> 0 b w, Slice -> 1 lo hi v, Cat -> 2 n parts *)
+Fixpoint enc_lv (v : lval) : list Z :=
+  match v with
+  | LSig b w => [0; nz b; nz w]
+  | LSlice v lo hi => [1; nz lo; nz hi] ++ enc_lv v
+  | LCat ps => [2; zlen ps] ++ (fix go (ps : list lval) : list Z :=
+                                  match ps with [] => [] | p :: r => enc_lv p ++ go r end) ps
+  end.
+
+(* port algebra: kind, direction, len, invert tuple, wires; for simulation ports also the Value tree *)
 Definition k_port (bds : list bdesc) (e : pexpr) : list Z :=
   res_list (bind (mk_env bds) (fun env => bind (peval env e) (fun p =>
     Ok ([kind_code (p_kind p); dir_code (p_dir p); zlen (p_refs p); zlen (p_nrefs p); zlen (p_inv p)]
-        ++ map b2l (p_inv p) ++ refs_list (p_refs p) ++ refs_list (p_nrefs p))))).
+        ++ map b2l (p_inv p) ++ refs_list (p_refs p) ++ refs_list (p_nrefs p)
+        ++ match p_kind p with KSim => enc_lv (peval_lv env e) | _ => [] end)))).
 
 (* o / oe signals of the base simulation ports that have them *)
 Definition obs_bases (env : list port) (st : bstate) : list Z :=
@@ -25,31 +36,42 @@ Definition obs_bases (env : list port) (st : bstate) : list Z :=
 Definition obs_comb (env : list port) (r : pstate * Z) : list Z :=
   obs_bases env (s_o (fst r)) ++ obs_bases env (s_oe (fst r)) ++ [snd r].
 
+(* The answer is the per-bit (specified) behaviour.  When the simulator's lowering of the port's Value tree
+   (finding C18-SIM-LHS-ALIAS) predicts something else, that prediction follows after the marker -7, so that the
+   harness can recognise the finding exactly (observation = prediction) and nothing else. *)
+Definition with_sim (flat sim : list Z) : list Z :=
+  if zlist_eqb flat sim then flat else flat ++ (-7) :: sim.
+
 (* Buffer(bd, e) simulated; steps = (o, oe, values of the base ports' i) *)
+Definition buf_trace (env : list port) (cmb : Z -> Z -> pstate -> pstate * Z) (steps : list (Z * Z * list Z)) : list Z :=
+  flat_map (fun s => let '(o, oe, iv) := s in obs_comb env (cmb o oe (init_pstate env iv))) steps.
+
 Definition k_buf (bds : list bdesc) (e : pexpr) (bd : dir) (steps : list (Z * Z * list Z)) : list Z :=
   res_list (bind (mk_env bds) (fun env => bind (peval env e) (fun p =>
     bind (buffer_check bd (p_dir p)) (fun _ =>
-    Ok (flat_map (fun s => let '(o, oe, iv) := s in
-                           obs_comb env (buffer_comb bd p o oe (init_pstate env iv))) steps))))).
+    Ok (with_sim (buf_trace env (buffer_comb bd p) steps)
+                 (buf_trace env (buffer_comb_lv bd p (peval_lv env e)) steps)))))).
 
-(* FFBuffer(bd, e, i_domain=, o_domain=); steps = (o, oe, i values, edge of i_domain, edge of o_domain) *)
-Fixpoint ff_run (env : list port) (bd : dir) (p : port) (s : ffst)
-                (steps : list (Z * Z * list Z * bool * bool)) : list Z :=
+(* FFBuffer(bd, e, i_domain=, o_domain=); steps = (o, oe, i values, which clocks tick) *)
+Fixpoint ff_run (env : list port) (cmb : Z -> Z -> pstate -> pstate * Z) (w : Z) (bd : dir)
+                (doms : option dom * option dom) (s : ffst) (steps : list (Z * Z * list Z * ticks)) : list Z :=
   match steps with
   | [] => []
-  | (o, oe, iv, ei, eo) :: r =>
+  | (o, oe, iv, t) :: r =>
       let st := init_pstate env iv in
-      let s' := ff_edge bd p ei eo o oe st s in
-      obs_bases env (s_o (fst (ff_comb bd p s' st))) ++ obs_bases env (s_oe (fst (ff_comb bd p s' st)))
-        ++ [f_i s'] ++ ff_run env bd p s' r
+      let s' := ff_edge_with cmb w bd (dom_ticks t (fst doms)) (dom_ticks t (snd doms)) o oe st s in
+      let c := cmb (f_o s') (f_oe s') st in
+      obs_bases env (s_o (fst c)) ++ obs_bases env (s_oe (fst c)) ++ [f_i s'] ++ ff_run env cmb w bd doms s' r
   end.
 
-Definition k_ff (bds : list bdesc) (e : pexpr) (bd : dir) (idom odom : bool)
-                (steps : list (Z * Z * list Z * bool * bool)) : list Z :=
+Definition k_ff (bds : list bdesc) (e : pexpr) (bd : dir) (idom odom : option dom)
+                (steps : list (Z * Z * list Z * ticks)) : list Z :=
   res_list (bind (mk_env bds) (fun env => bind (peval env e) (fun p =>
-    bind (ffbuffer_check bd (p_dir p) idom odom) (fun _ => Ok (ff_run env bd p ff_init steps))))).
+    bind (ffbuffer_init bd (p_dir p) idom odom) (fun doms =>
+    Ok (with_sim (ff_run env (buffer_comb bd p) (plen p) bd doms ff_init steps)
+                 (ff_run env (buffer_comb_lv bd p (peval_lv env e)) (plen p) bd doms ff_init steps)))))).
 
-(* netlist of Buffers on real ports *)
+(* several Buffers in one simulated design *)
 Fixpoint eval_bufs (env : list port) (bufs : list (dir * pexpr)) : res (list (dir * port)) :=
   match bufs with
   | [] => Ok []
@@ -57,14 +79,50 @@ Fixpoint eval_bufs (env : list port) (bufs : list (dir * pexpr)) : res (list (di
                     bind (eval_bufs env r) (fun l => Ok ((bd, p) :: l))))
   end.
 
+Fixpoint multi_drive (bps : list (dir * port)) (oes : list (Z * Z)) (st : pstate) : pstate :=
+  match bps, oes with
+  | (bd, p) :: r, (o, oe) :: r' => multi_drive r r' (fst (buffer_comb bd p o oe st))
+  | _, _ => st
+  end.
+Fixpoint multi_i (bps : list (dir * port)) (oes : list (Z * Z)) (st : pstate) : list Z :=
+  match bps, oes with
+  | (bd, p) :: r, (o, oe) :: r' => snd (buffer_comb bd p o oe st) :: multi_i r r' st
+  | _, _ => []
+  end.
+
+Definition k_multi (bds : list bdesc) (bufs : list (dir * pexpr)) (steps : list (list (Z * Z) * list Z)) : list Z :=
+  res_list (bind (mk_env bds) (fun env => bind (eval_bufs env bufs) (fun bps =>
+    Ok (flat_map (fun s => let '(oes, iv) := s in
+                           let stf := multi_drive bps oes (init_pstate env iv) in
+                           obs_bases env (s_o stf) ++ obs_bases env (s_oe stf) ++ multi_i bps oes stf) steps)))).
+
+(* netlist of Buffers / FFBuffers on real ports; ff = Some (i_domain, o_domain) for an FFBuffer *)
+Definition nbuf := (dir * pexpr * option (option dom * option dom))%type.
+Fixpoint eval_nbufs (env : list port) (bufs : list nbuf)
+  : res (list (dir * port * ((nat * option dom) * (nat * option dom)))) :=
+  match bufs with
+  | [] => Ok []
+  | (bd, e, ff) :: r =>
+      bind (peval env e) (fun p =>
+      bind (match ff with
+            | None => bind (buffer_check bd (p_dir p)) (fun _ => Ok ((0%nat, None), (0%nat, None)))
+            | Some (i, o) => bind (ffbuffer_init bd (p_dir p) i o) (fun d => Ok (ff_regs d))
+            end) (fun regs =>
+      bind (eval_nbufs env r) (fun l => Ok ((bd, p, regs) :: l))))
+  end.
+
 Definition enc_cell (c : cell) : list Z :=
   [dir_code (c_dir c); zlen (c_port c)] ++ refs_list (c_port c) ++ [zlen (c_o c)]
   ++ flat_map (fun b => [nz (ob_k b); b2l (ob_inv b)]) (c_o c).
-Definition enc_buf (bp : dir * port) : list Z :=
-  let '(cs, ib) := buffer_cells (fst bp) (snd bp) in
+Definition enc_buf (x : dir * port * ((nat * option dom) * (nat * option dom))) : list Z :=
+  let '(bd, p, (ro, ri)) := x in
+  let '(cs, ib) := buffer_cells bd p in
   [zlen cs] ++ flat_map enc_cell cs ++ [zlen ib]
-  ++ flat_map (fun b => [nz (ib_cell b); nz (ib_bit b); b2l (ib_inv b)]) ib.
+  ++ flat_map (fun b => [nz (ib_cell b); nz (ib_bit b); b2l (ib_inv b)]) ib
+  ++ [nz (fst ro); dom_code (snd ro)]
+  (* the i register of a zero-width buffer drives no net: nothing is observable in the netlist *)
+  ++ (if Nat.eqb (length (p_refs p)) 0 then [0; 0] else [nz (fst ri); dom_code (snd ri)]).
 
-Definition k_net (bds : list bdesc) (bufs : list (dir * pexpr)) : list Z :=
-  res_list (bind (mk_env bds) (fun env => bind (eval_bufs env bufs) (fun bps =>
-    bind (build_netlist bps) (fun cells => Ok (zlen cells :: flat_map enc_buf bps))))).
+Definition k_net (bds : list bdesc) (bufs : list nbuf) : list Z :=
+  res_list (bind (mk_env bds) (fun env => bind (eval_nbufs env bufs) (fun bps =>
+    bind (build_netlist (map fst bps)) (fun cells => Ok (zlen cells :: flat_map enc_buf bps))))).
